@@ -286,7 +286,8 @@ func (w *world) seq(out *c.Out, seq int, r *c.Rng) {
 		out.Violation("app wiring: the auction module account is not a blocked address of x/bank; custody (module balance = coins of open auctions) can be broken by a plain MsgSend")
 	}
 	ps := pickParams(r)
-	k.SetParams(ctx, auctiontypes.NewParams(ps.maxDur, ps.fwdDur, ps.revDur, ps.incS, ps.incD, ps.incC))
+	ap := auctiontypes.NewParams(ps.maxDur, ps.fwdDur, ps.revDur, ps.incS, ps.incD, ps.incC)
+	kapp.SetParams(w.tApp, ctx, "auction", &ap, func() { k.SetParams(ctx, ap) })
 	// funding through real bank operations
 	rich := r.Chance(70)
 	for i := pLiq; i < len(w.parties); i++ {
